@@ -542,6 +542,10 @@ void harness(void) { MutexEvent* e; g_reset_allowed = 1; Reset(e); VF_CANARY("en
             b = find_body(repo, F_MEH, sig, 'MutexEvent::' + nm, within=r'class\s+MutexEvent')
             # `_cv.wait_xxx(token, t, [&] { return EXPR; })`: the lambda's expression becomes the predicate macro of the std semantics below; a call WITHOUT predicate is the plain timed wait
             t = b.text
+            # a predicate lambda bound to a name first: `const auto p = [&] { return E; }; ... wait_xxx(token, t, p)`
+            for mm in list(re.finditer(r'(?:const\s+)?auto\s+(\w+)\s*=\s*\[&\]\s*\{\s*return\s+([^;{}]+);\s*\}\s*;', t)):
+                t = t.replace(mm.group(0), '')
+                t = re.sub(r'(_cv\.' + call + r'\(\s*token\s*,\s*\w+\s*,\s*)%s(\s*\))' % re.escape(mm.group(1)), lambda q: q.group(1) + '[&] { return ' + mm.group(2) + '; }' + q.group(2), t)
             t, k = re.subn(r'_cv\.' + call + r'\(\s*token\s*,\s*\w+\s*,\s*\[&\]\s*\{\s*return\s+([^;{}]+);\s*\}\s*\)', r'CV_TIMED_WAIT_PRED(self, (\1))', t)
             t, k2 = re.subn(r'_cv\.' + call + r'\(\s*token\s*,\s*\w+\s*\)', 'CV_TIMED_WAIT(self)', t)
             if k + k2 != 1:
